@@ -50,5 +50,7 @@ pub mod stream_models;
 
 pub mod slices;
 
+pub mod accept;
+
 #[cfg(kani)]
 pub mod vh;
